@@ -100,6 +100,16 @@ impl Database {
         if file_len < min_len {
             file.set_len(min_len as u64)?;
             file.sync_all()?;
+            #[cfg(feature = "verif")]
+            {
+                verif::emit(&verif::Event::SetLen {
+                    file: verif::FileId::Data,
+                    len: min_len,
+                });
+                verif::emit(&verif::Event::Sync {
+                    file: verif::FileId::Data,
+                });
+            }
             file_len = min_len;
         }
 
@@ -168,6 +178,11 @@ impl Database {
             self, target_len, len
         );
         file.set_len(target_len as u64)?;
+        #[cfg(feature = "verif")]
+        verif::emit(&verif::Event::SetLen {
+            file: verif::FileId::Data,
+            len: target_len,
+        });
         self.0.cached_file_len.store(target_len, Ordering::Relaxed);
         *mmap = create_mmap(&file)?;
         Ok(())
@@ -228,6 +243,12 @@ impl Database {
     #[inline]
     pub(crate) fn write(&self, start: usize, data: &[u8]) {
         write_to_mmap(&self.mmap(), start, data);
+        #[cfg(feature = "verif")]
+        verif::emit(&verif::Event::MmapWrite {
+            file: verif::FileId::Data,
+            off: start,
+            bytes: data,
+        });
     }
 
     pub(crate) fn copy(&self, src: usize, dst: usize, len: usize) -> Result<()> {
@@ -248,6 +269,12 @@ impl Database {
 
         let mmap = self.mmap();
         write_to_mmap(&mmap, dst, &mmap[src..src_end]);
+        #[cfg(feature = "verif")]
+        verif::emit(&verif::Event::MmapWrite {
+            file: verif::FileId::Data,
+            off: dst,
+            bytes: &mmap[dst..dst_end],
+        });
         Ok(())
     }
 
@@ -371,12 +398,27 @@ impl Database {
                 }
                 return Err(e.into());
             }
+            #[cfg(feature = "verif")]
+            verif::emit(&verif::Event::FlushAsync {
+                file: verif::FileId::Data,
+                off: flush_start,
+                len: flush_end - flush_start,
+            });
         }
 
         // Data must be durable before metadata (crash safety).
         self.regions().flush()?;
         self.file().sync_data()?;
+        #[cfg(feature = "verif")]
+        {
+            verif::emit(&verif::Event::Sync {
+                file: verif::FileId::Data,
+            });
+            verif::point("flush:between_syncs");
+        }
         self.regions().sync_data()?;
+        #[cfg(feature = "verif")]
+        verif::point("flush:before_promote");
         for (region, _) in &dirty_regions {
             region.meta().mark_clean();
         }
@@ -521,6 +563,10 @@ impl Database {
             debug!("{}: punch_holes syncing after {} punches", self, punched);
             let file = self.file();
             file.sync_data()?;
+            #[cfg(feature = "verif")]
+            verif::emit(&verif::Event::Sync {
+                file: verif::FileId::Data,
+            });
         }
 
         Ok(())
